@@ -145,3 +145,23 @@ PROPS['C12'] = dict(
           'same with 4 ids and STOPPING trials', '4 ids x 6 kinds, slice %d/8' % k, env={'VERIF_SLICE': str(k)})
         for k in range(8)
     ])
+
+_C01_BOUND = ('study missing or in any of 4 states; trial 1 absent or in any of 5 states with 0..1 measurements; '
+              'bystander trial absent/ACTIVE/SUCCEEDED; target id existing/bystander/missing')
+PROPS['C01'] = dict(
+    level='model_checking',
+    encoded=['VizierServicer.CreateTrial/GetTrial/ListTrials/AddTrialMeasurement/CompleteTrial/StopTrial/DeleteTrial/'
+             'SetStudyState/DeleteStudy/GetStudy', 'grpc_util.handle_exception', 'NestedDictRAMDataStore.*',
+             'resources.*'],
+    bounds='one RPC from every pre-state: ' + _C01_BOUND,
+    outside='histories whose relevance needs >= 3 distinct trials; parameter payloads beyond one DOUBLE parameter; '
+            'SQL datastore (C07 simulation step)',
+    obligations=[
+        O('C01.complete_trial', 'harness.c01_lifecycle', 'complete_trial', 300, 900, 'CompleteTrial vs reference model', _C01_BOUND),
+        O('C01.add_measurement', 'harness.c01_lifecycle', 'add_measurement', 200, 600, 'AddTrialMeasurement vs reference model', _C01_BOUND),
+        O('C01.stop_trial', 'harness.c01_lifecycle', 'stop_trial', 200, 600, 'StopTrial vs reference model', _C01_BOUND),
+        O('C01.delete_trial', 'harness.c01_lifecycle', 'delete_trial', 200, 600, 'DeleteTrial vs reference model', _C01_BOUND),
+        O('C01.create_trial', 'harness.c01_lifecycle', 'create_trial', 200, 600, 'CreateTrial vs reference model', _C01_BOUND),
+        O('C01.read_calls', 'harness.c01_lifecycle', 'read_calls', 250, 600, 'GetTrial/ListTrials/GetStudy vs reference model', _C01_BOUND),
+        O('C01.study_calls', 'harness.c01_lifecycle', 'study_calls', 200, 600, 'SetStudyState/DeleteStudy vs reference model', _C01_BOUND),
+    ])
